@@ -65,13 +65,13 @@ def end_node(g, acts):
     return cur
 
 
-def drain_steps(g, node, limit=40):
+def drain_steps(g, node, kinds=("connect", "complete", "write"), limit=60):
     """Follow the model from `node` with connect / complete / write steps until it is quiescent."""
     acts = []
     for _ in range(limit):
         nxt = g.succ.get(node, ())
         pick = None
-        for want in ("connect", "complete", "write"):
+        for want in kinds:
             for (a, t) in nxt:
                 if a["k"] == want and not (want == "write" and not a.get("w")):
                     pick = (a, t)
@@ -116,31 +116,77 @@ def to_trace(case, result):
     return ev
 
 
-def p_validate_all(cases, results, wd, tag, chunk=1500):
+def to_trace_supply(case, result):
+    """Trace_SupplyUplink events.  The value lane (ns + 1) is not C14's business: kind "v"."""
+    vl = case["cfg"]["ns"] + 1
+
+    def conv(fr):
+        return [(["v"] + f[1:]) if (len(f) == 3 and f[0] == "e" and f[1] == vl) else f for f in fr]
+    ev = [{"k": "reset", "id": str(case["id"])}]
+    if result.get("panic") is not None:
+        ev.append({"k": "panic"})
+        return ev
+    obs = result.get("obs", [])
+    for i, a in enumerate(case["acts"]):
+        if i >= len(obs):
+            break
+        o = obs[i]
+        if a["k"] == "supply":
+            ev.append({"k": "push", "l": a["l"], "n": a["n"]})
+        elif a["k"] == "unlinked":
+            ev.append({"k": "unlink", "l": a["l"]})
+        if "fr" in o:
+            e = {"k": "frames", "fr": conv(o["fr"])}
+            if o.get("trail"):
+                e["trail"] = o["trail"]
+            ev.append(e)
+        if a["k"] == "complete" and o.get("some") is False:
+            ev.append({"k": "idle"})
+    end = result.get("end")
+    if end is not None:
+        e = {"k": "frames", "fr": conv(end.get("fr", []))}
+        if end.get("trail"):
+            e["trail"] = end["trail"]
+        ev.append(e)
+        ev.append({"k": "end", "idle": bool(end.get("idle"))})
+    return ev
+
+
+class Comp:
+    def __init__(self, name, trace_module, input_keys, to_trace, args, drain_kinds):
+        self.name, self.trace_module, self.input_keys = name, trace_module, input_keys
+        self.to_trace, self.args, self.drain_kinds = to_trace, args, drain_kinds
+
+
+CMD = Comp("CommandOutput", "Trace_CommandOutput", INPUT_KEYS, to_trace, (), ("connect", "complete", "write"))
+SUP = Comp("SupplyUplink", "Trace_SupplyUplink", {"k", "l", "n"}, to_trace_supply, ("supply",), ("complete",))
+
+
+def p_validate_all(comp, cases, results, wd, tag, chunk=1500):
     """One TLC run per chunk over the concatenated traces.  Returns {case id: why} for the rejected."""
     rejected = {}
     n_events = 0
     for ci in range(0, len(cases), chunk):
         ev = []
         for c, r in zip(cases[ci:ci + chunk], results[ci:ci + chunk]):
-            ev += to_trace(c, r)
+            ev += comp.to_trace(c, r)
         n_events += len(ev)
-        res = core.trace_validate("Trace_CommandOutput", ev, os.path.join(wd, "tv_%s_%d" % (tag, ci)), timeout=900)
+        res = core.trace_validate(comp.trace_module, ev, os.path.join(wd, "tv_%s_%d" % (tag, ci)), timeout=900)
         if res.get("matched") != res.get("total"):
-            raise core.ToolError("Trace_CommandOutput stopped at event %s of %s (%s)" % (
-                res.get("matched"), res.get("total"), res.get("status")))
+            raise core.ToolError("%s stopped at event %s of %s (%s)" % (
+                comp.trace_module, res.get("matched"), res.get("total"), res.get("status")))
         for f in res.get("failed", []):
             rejected[f["id"]] = "%s (event %d of the concatenated trace)" % (f["why"], f["at"])
         if not res["accepted"] and not res.get("failed"):
-            raise core.ToolError("Trace_CommandOutput rejected without a failure record: %s" % res)
+            raise core.ToolError("%s rejected without a failure record: %s" % (comp.trace_module, res))
     return rejected, n_events
 
 
-def diff_case(case, result):
+def diff_case(comp, case, result):
     """index of the first step whose observation differs from M (len(acts) = the epilogue), or None."""
     if result.get("panic") is not None:
         return 0
-    d = rp.first_diff(case["acts"], result.get("obs", []), INPUT_KEYS)
+    d = rp.first_diff(case["acts"], result.get("obs", []), comp.input_keys)
     if d is not None:
         return d
     if result.get("end") != END_EXPECTED:
@@ -148,13 +194,13 @@ def diff_case(case, result):
     return None
 
 
-def evaluate(out, cases, results, wd, tag, what, st):
-    rejected, n_ev = p_validate_all(cases, results, wd, tag)
+def evaluate(comp, out, cases, results, wd, tag, what, st):
+    rejected, n_ev = p_validate_all(comp, cases, results, wd, tag)
     st["p_events"] += n_ev
     for c, r in zip(cases, results):
         st["cases"] += 1
         st["steps"] += len(c["acts"])
-        d = diff_case(c, r)
+        d = diff_case(comp, c, r)
         why = rejected.get(str(c["id"]))
         if why is not None:
             st["rejected"] += 1
@@ -164,7 +210,7 @@ def evaluate(out, cases, results, wd, tag, what, st):
                 what, c["id"], why, d, json.dumps(exp), json.dumps(got),
                 (" PANIC " + str(r.get("panic"))) if r.get("panic") else "")
             if st["rejected"] <= 10:
-                out.violation(msg, {"component": "CommandOutput", "case": c, "observed": r})
+                out.violation(msg, {"component": comp.name, "case": c, "observed": r})
             continue
         if d is None:
             st["conform"] += 1
@@ -177,138 +223,217 @@ def evaluate(out, cases, results, wd, tag, what, st):
                     json.dumps((r.get("obs", []) + [r.get("end")])[d]) if d < len(r.get("obs", [])) + 1 else None))
 
 
-def mk_cases(paths, prefix, rng):
+def mk_cases(paths, prefix, rng, extra_cfg=None):
     cases = []
     for i, p in enumerate(paths):
-        cases.append({"id": "%s.%d" % (prefix, i),
-                      "cfg": {"cap": CAPS[rng.randrange(len(CAPS))], "seed": rng.randrange(8)},
-                      "acts": p})
+        cfg = {"cap": CAPS[rng.randrange(len(CAPS))], "seed": rng.randrange(8)}
+        cfg.update(extra_cfg or {})
+        cases.append({"id": "%s.%d" % (prefix, i), "cfg": cfg, "acts": p})
     return cases
 
 
-def interesting(acts):
-    """a behaviour that exercises the multi-target batch while the writer was lent before."""
+def interesting_cmd(acts):
+    """a behaviour that exercises the multi-target batch after the writer has been lent before."""
     completes = [a for a in acts if a["k"] == "complete"]
     return len(completes) >= 2 and any(len({f[0] for f in a["fr"]}) >= 2 for a in completes[1:])
 
 
+def interesting_sup(acts):
+    """a behaviour in which a supply uplink re-queues itself (>= 2 items of one lane drained back to back)
+    or items are discarded by an unlink while the writer is lent."""
+    pend = {}
+    for a in acts:
+        if a["k"] == "supply" and not a.get("some"):
+            pend[a["l"]] = pend.get(a["l"], 0) + 1
+            if pend[a["l"]] >= 2:
+                return True
+        elif a["k"] == "complete":
+            for f in a["fr"]:
+                if f[0] == "e" and pend.get(f[1]):
+                    pend[f[1]] -= 1
+    return False
+
+
 # ----------------------------------------------------------------------------- the check
 
-def run_k(tier, out, wd, prop="C14"):
-    rng = random.Random(core.seed() * 7919 + 14)
-    os.makedirs(wd, exist_ok=True)
-    core.build_harness(MEMBER, COMPONENT)
-    pl = plan(tier)
-    st = dict(cases=0, steps=0, conform=0, drift=0, rejected=0, p_events=0)
-    tot = dict(states=0, transitions=0)
-    cov = {}
-    tlc_runs = []
+class Run:
+    """TLC runs + replay for one component specification."""
 
-    def add_cov(r):
+    def __init__(self, comp, module, m_invs, p_invs, p_props, out, wd, rng, interesting, extra_cfg):
+        self.comp, self.module, self.m_invs, self.p_invs, self.p_props = comp, module, m_invs, p_invs, p_props
+        self.out, self.wd, self.rng, self.interesting, self.extra_cfg = out, wd, rng, interesting, extra_cfg
+        self.st = dict(cases=0, steps=0, conform=0, drift=0, rejected=0, p_events=0)
+        self.tot = dict(states=0, transitions=0)
+        self.cov = {}
+        self.tlc_runs = []
+        self.n_interesting = 0
+        self.tag = comp.name[:3].lower()
+
+    def add_cov(self, r):
         for a, (d, t) in r.coverage.items():
-            o = cov.get(a, (0, 0))
-            cov[a] = (o[0] + d, o[1] + t)
+            if a in ("EdgeDump", "Action"):
+                continue
+            o = self.cov.get(a, (0, 0))
+            self.cov[a] = (o[0] + d, o[1] + t)
 
-    # ---- B3: M |= P, exhaustively
-    for i, k in enumerate(pl["b3"]):
-        c = core.cfg(constants=k, invariants=M_INVS + P_INVS, properties=P_PROPS, view="View")
-        r = core.run_tlc("MC_CommandOutput", c, os.path.join(wd, "b3_%d" % i), workers=4, timeout=1500, xmx="6g")
+    def b3(self, i, k):
+        c = core.cfg(constants=k, invariants=self.m_invs + self.p_invs, properties=self.p_props, view="View")
+        r = core.run_tlc("MC_" + self.module, c, os.path.join(self.wd, "%s_b3_%d" % (self.tag, i)), workers=4, timeout=1500, xmx="6g")
         if not r.ok:
-            raise core.ToolError("M violates P in TLC (%s %s) for %s - the model says the design is broken; reproduce on the "
-                                 "real code before calling it a violation:\n%s" % (r.status, r.violated, k, r.counterexample[:3000]))
-        add_cov(r)
-        tot["states"] += r.distinct
-        tot["transitions"] += r.generated
-        tlc_runs.append({"cfg": k, "distinct": r.distinct, "generated": r.generated, "depth": r.depth, "wall_s": round(r.wall, 1)})
-        core.log("[KCMD] B3 %s: %d distinct states, %d transitions, depth %d, %.1fs" % (k, r.distinct, r.generated, r.depth, r.wall))
+            raise core.ToolError("M violates P in TLC (%s %s) for %s %s - the model says the design is broken; reproduce on "
+                                 "the real code before calling it a violation:\n%s" % (r.status, r.violated, self.module, k, r.counterexample[:3000]))
+        self.add_cov(r)
+        self.tot["states"] += r.distinct
+        self.tot["transitions"] += r.generated
+        self.tlc_runs.append({"spec": self.module, "cfg": k, "distinct": r.distinct, "generated": r.generated, "depth": r.depth,
+                              "wall_s": round(r.wall, 1)})
+        core.log("[KCMD] %s B3 %s: %d distinct states, %d transitions, depth %d, %.1fs" % (
+            self.module, k, r.distinct, r.generated, r.depth, r.wall))
 
-    # ---- negative control: the code before the fix must violate P in the model (P is not vacuous)
-    k = consts(2, 3, True, clear=False)
-    r = core.run_tlc("MC_CommandOutput", core.cfg(constants=k, invariants=M_INVS + P_INVS, view="View"),
-                     os.path.join(wd, "neg"), workers=1, timeout=300)
-    if r.ok or r.violated != "InOrderOnce":
-        raise core.ToolError("negative control: with ClearBatch = FALSE (pre-fix code) TLC must report InOrderOnce; got %s %s" % (r.status, r.violated))
-    core.log("[KCMD] negative control: ClearBatch=FALSE -> TLC reports %s (F2 duplicate) as expected" % r.violated)
-
-    # ---- liveness at small scope: the component drains
-    for i, k in enumerate(pl["live"]):
+    def live(self, i, k):
         c = core.cfg(spec="FairSpec", constants=k, properties=["Drains"])
-        r = core.run_tlc("MC_CommandOutput", c, os.path.join(wd, "live_%d" % i), workers=2, timeout=900)
+        r = core.run_tlc("MC_" + self.module, c, os.path.join(self.wd, "%s_live_%d" % (self.tag, i)), workers=2, timeout=900)
         if not r.ok:
-            raise core.ToolError("M violates the liveness property Drains (%s) for %s:\n%s" % (r.status, k, r.counterexample[:3000]))
-        tlc_runs.append({"cfg": k, "property": "Drains", "distinct": r.distinct, "wall_s": round(r.wall, 1)})
-        core.log("[KCMD] liveness Drains %s: %d distinct states, %.1fs" % (k, r.distinct, r.wall))
+            raise core.ToolError("M violates the liveness property Drains (%s) for %s %s:\n%s" % (r.status, self.module, k, r.counterexample[:3000]))
+        self.tlc_runs.append({"spec": self.module, "cfg": k, "property": "Drains", "distinct": r.distinct, "wall_s": round(r.wall, 1)})
+        core.log("[KCMD] %s liveness Drains %s: %d distinct states, %.1fs" % (self.module, k, r.distinct, r.wall))
 
-    # ---- B1/B2: state-graph replay
-    n_interesting = 0
-    for i, k in enumerate(pl["dump"]):
-        c = core.cfg(constants=k, invariants=M_INVS + P_INVS + ["InitDump"], view="View", action_constraints=["EdgeDump"])
-        r = core.run_tlc("MC_CommandOutput", c, os.path.join(wd, "dump_%d" % i), workers=1, timeout=1500, xmx="6g")
+    def replay_paths(self, paths, prefix, what, k):
+        self.n_interesting += sum(1 for p in paths if self.interesting(p))
+        cases = mk_cases(paths, prefix, self.rng, self.extra_cfg(k))
+        results = rp.run_cases(MEMBER, COMPONENT, cases, self.wd, tag=prefix, input_keys=self.comp.input_keys, args=self.comp.args)
+        before = dict(self.st)
+        evaluate(self.comp, self.out, cases, results, self.wd, prefix, what, self.st)
+        return len(cases), tuple(self.st[x] - before[x] for x in ("conform", "drift", "rejected"))
+
+    def dump(self, i, k, walks, extend):
+        c = core.cfg(constants=k, invariants=self.m_invs + self.p_invs + ["InitDump"], view="View", action_constraints=["EdgeDump"])
+        r = core.run_tlc("MC_" + self.module, c, os.path.join(self.wd, "%s_dump_%d" % (self.tag, i)), workers=1, timeout=1500, xmx="6g")
         if not r.ok:
-            raise core.ToolError("M violates P in TLC (%s %s) for %s:\n%s" % (r.status, r.violated, k, r.counterexample[:3000]))
+            raise core.ToolError("M violates P in TLC (%s %s) for %s %s:\n%s" % (r.status, r.violated, self.module, k, r.counterexample[:3000]))
         g = core.Graph(r.tagged["EDGE"], init_views=r.tagged["INIT"])
-        add_cov(r)
-        tot["states"] += r.distinct
-        tot["transitions"] += g.n_edges
-        paths = g.covering_paths(extend=pl["extend"], rng=rng)
-        paths += g.random_walks(pl["walks"][0], pl["walks"][1], rng)
-        paths = [p + drain_steps(g, end_node(g, p)) for p in paths]
-        n_interesting += sum(1 for p in paths if interesting(p))
-        cases = mk_cases(paths, "g%d" % i, rng)
-        results = rp.run_cases(MEMBER, COMPONENT, cases, wd, tag="g%d" % i, input_keys=INPUT_KEYS)
-        before = dict(st)
-        evaluate(out, cases, results, wd, "g%d" % i, "CommandOutput%s" % json.dumps(k), st)
-        tlc_runs.append({"cfg": k, "graph": True, "distinct": r.distinct, "edges": g.n_edges, "wall_s": round(r.wall, 1)})
-        core.log("[KCMD] graph %s: %d states %d edges; %d paths: conform=%d drift=%d rejected=%d" % (
-            k, r.distinct, g.n_edges, len(cases), st["conform"] - before["conform"], st["drift"] - before["drift"],
-            st["rejected"] - before["rejected"]))
+        self.add_cov(r)
+        self.tot["states"] += r.distinct
+        self.tot["transitions"] += g.n_edges
+        paths = g.covering_paths(extend=extend, rng=self.rng)
+        paths += g.random_walks(walks[0], walks[1], self.rng)
+        paths = [p + drain_steps(g, end_node(g, p), self.comp.drain_kinds) for p in paths]
+        n, (cf, dr, rj) = self.replay_paths(paths, "%sg%d" % (self.tag, i), "%s%s" % (self.module, json.dumps(k)), k)
+        self.tlc_runs.append({"spec": self.module, "cfg": k, "graph": True, "distinct": r.distinct, "edges": g.n_edges, "wall_s": round(r.wall, 1)})
+        core.log("[KCMD] %s graph %s: %d states %d edges; %d paths: conform=%d drift=%d rejected=%d" % (
+            self.module, k, r.distinct, g.n_edges, n, cf, dr, rj))
         if i == 0 and paths:
-            best = max(paths, key=lambda p: (interesting(p), -abs(len(p) - 12)))
-            out.sample({"component": "CommandOutput", "cfg": k, "calls_with_expected_results": best[:16]})
+            best = max(paths, key=lambda p: (self.interesting(p), -abs(len(p) - 12)))
+            self.out.sample({"component": self.module, "cfg": k, "calls_with_expected_results": best[:16]})
 
-    # ---- B1/B2: simulated behaviours at the full scope
-    for i, (k, num) in enumerate(pl["sim"]):
-        c = core.cfg(init="SimInit", next_="SimNext", constants=k, invariants=P_INVS + ["HistDump"])
-        r = core.run_tlc("Sim_CommandOutput", c, os.path.join(wd, "sim_%d" % i), workers=1, timeout=1500,
-                         simulate="num=%d" % num, extra=["-depth", "80", "-seed", str(core.seed() + i)], coverage=False)
+    def sim(self, i, k, num):
+        c = core.cfg(init="SimInit", next_="SimNext", constants=k, invariants=self.p_invs + ["HistDump"])
+        r = core.run_tlc("Sim_" + self.module, c, os.path.join(self.wd, "%s_sim_%d" % (self.tag, i)), workers=1, timeout=1500,
+                         simulate="num=%d" % num, extra=["-depth", "100", "-seed", str(core.seed() + i)], coverage=False)
         if not r.ok:
-            raise core.ToolError("simulation of M violates P (%s %s) for %s:\n%s" % (r.status, r.violated, k, r.counterexample[:3000]))
+            raise core.ToolError("simulation of M violates P (%s %s) for %s %s:\n%s" % (r.status, r.violated, self.module, k, r.counterexample[:3000]))
         seen, paths = set(), []
         for h in r.tagged["REPLAY"]:
             key = core.canon(h)
             if key not in seen:
                 seen.add(key)
                 paths.append(h)
-        n_interesting += sum(1 for p in paths if interesting(p))
-        cases = mk_cases(paths, "s%d" % i, rng)
-        results = rp.run_cases(MEMBER, COMPONENT, cases, wd, tag="s%d" % i, input_keys=INPUT_KEYS)
-        before = dict(st)
-        evaluate(out, cases, results, wd, "s%d" % i, "CommandOutput(sim)%s" % json.dumps(k), st)
-        core.log("[KCMD] simulate %s: %d distinct complete behaviours: conform=%d drift=%d rejected=%d" % (
-            k, len(cases), st["conform"] - before["conform"], st["drift"] - before["drift"], st["rejected"] - before["rejected"]))
+        n, (cf, dr, rj) = self.replay_paths(paths, "%ss%d" % (self.tag, i), "%s(sim)%s" % (self.module, json.dumps(k)), k)
+        core.log("[KCMD] %s simulate %s: %d distinct complete behaviours: conform=%d drift=%d rejected=%d" % (
+            self.module, k, n, cf, dr, rj))
         if i == 0 and paths:
-            out.sample({"component": "CommandOutput", "cfg": k, "simulated_behaviour": max(paths, key=interesting)[:20]})
+            self.out.sample({"component": self.module, "cfg": k, "simulated_behaviour": max(paths, key=self.interesting)[:20]})
 
-    never = sorted(a for a, (d, t) in cov.items() if t == 0)
-    stats = dict(
-        states=tot["states"], transitions=tot["transitions"],
-        traces_validated_against_impl=st["conform"] + st["drift"],
-        replayed_cases=st["cases"], replayed_calls=st["steps"], model_drift=st["drift"], rejected=st["rejected"],
-        p_trace_events_validated=st["p_events"], multi_target_batch_after_lent_writer_cases=n_interesting,
-        action_coverage={a: {"distinct": d, "taken": t} for a, (d, t) in sorted(cov.items())},
-        actions_never_taken=never, tlc_runs=tlc_runs,
-        checker_cmd="tlc MC_CommandOutput (INVARIANTS %s; PROPERTIES %s; FairSpec |= Drains) + tlc -simulate Sim_CommandOutput + "
-                    "h_runtime cmdoutput + tlc Trace_CommandOutput" % (" ".join(M_INVS + P_INVS), " ".join(P_PROPS)))
-    if never:
-        raise core.ToolError("actions of CommandOutput.tla never taken (vacuous model): %s" % never)
-    out.add(states=stats["states"], transitions=stats["transitions"],
-            traces_validated_against_impl=stats["traces_validated_against_impl"])
-    out.add(k_cmdoutput={k_: v for k_, v in stats.items() if k_ not in ("states", "transitions", "traces_validated_against_impl")})
+    def stats(self):
+        never = sorted(a for a, (d, t) in self.cov.items() if t == 0)
+        if never:
+            raise core.ToolError("actions of %s.tla never taken (vacuous model): %s" % (self.module, never))
+        st = self.st
+        return dict(states=self.tot["states"], transitions=self.tot["transitions"],
+                    traces_validated_against_impl=st["conform"] + st["drift"],
+                    replayed_cases=st["cases"], replayed_calls=st["steps"], model_drift=st["drift"], rejected=st["rejected"],
+                    p_trace_events_validated=st["p_events"], interesting_cases=self.n_interesting,
+                    action_coverage={a: {"distinct": d, "taken": t} for a, (d, t) in sorted(self.cov.items())},
+                    actions_never_taken=never, tlc_runs=self.tlc_runs)
+
+
+SUP_M_INVS = ["TypeOK", "WriterPlace", "HomeMeansEmpty", "QueuedIfData"]
+SUP_P_INVS = ["InOrderOnce", "NoSkipWithinEpoch", "NothingLost", "QuiescentComplete"]
+
+
+def sconsts(ns, push, spec, sync, val):
+    return dict(NS=ns, MaxPush=push, MaxSpec=spec, MaxSync=sync, MaxVal=val)
+
+
+def plan_supply(tier):
+    if tier == "quick":
+        return dict(b3=[sconsts(2, 3, 3, 1, 1), sconsts(1, 4, 3, 1, 2)],
+                    dump=[sconsts(2, 2, 3, 1, 1), sconsts(1, 3, 3, 1, 1)],
+                    live=[sconsts(1, 3, 2, 1, 1)],
+                    sim=[(sconsts(2, 8, 6, 2, 3), 250)],
+                    walks=(200, 24), extend=3)
+    return dict(b3=[sconsts(2, 4, 4, 1, 2), sconsts(2, 5, 3, 1, 1), sconsts(1, 6, 4, 2, 2)],
+                dump=[sconsts(2, 3, 3, 1, 1), sconsts(1, 4, 3, 1, 2), sconsts(2, 2, 4, 1, 0)],
+                live=[sconsts(2, 2, 3, 1, 1), sconsts(1, 4, 3, 1, 1)],
+                sim=[(sconsts(2, 8, 6, 2, 3), 3000), (sconsts(3, 12, 8, 3, 4), 2000)],
+                walks=(2000, 40), extend=6)
+
+
+def run_k(tier, out, wd, prop="C14"):
+    rng = random.Random(core.seed() * 7919 + 14)
+    os.makedirs(wd, exist_ok=True)
+    core.build_harness(MEMBER, COMPONENT)
+
+    # ======== agent-sent commands: CommandOutput
+    pl = plan(tier)
+    rc = Run(CMD, "CommandOutput", M_INVS, P_INVS, P_PROPS, out, wd, rng, interesting_cmd, lambda k: {})
+    for i, k in enumerate(pl["b3"]):
+        rc.b3(i, k)
+    # negative control: the code before the fix must violate P in the model (P is not vacuous)
+    k = consts(2, 3, True, clear=False)
+    r = core.run_tlc("MC_CommandOutput", core.cfg(constants=k, invariants=M_INVS + P_INVS, view="View"),
+                     os.path.join(wd, "neg"), workers=1, timeout=300)
+    if r.ok or r.violated != "InOrderOnce":
+        raise core.ToolError("negative control: with ClearBatch = FALSE (pre-fix code) TLC must report InOrderOnce; got %s %s" % (r.status, r.violated))
+    core.log("[KCMD] negative control: ClearBatch=FALSE -> TLC reports %s (F2 duplicate) as expected" % r.violated)
+    for i, k in enumerate(pl["live"]):
+        rc.live(i, k)
+    for i, k in enumerate(pl["dump"]):
+        rc.dump(i, k, pl["walks"], pl["extend"])
+    for i, (k, num) in enumerate(pl["sim"]):
+        rc.sim(i, k, num)
+    cstats = rc.stats()
+    cstats["checker_cmd"] = ("tlc MC_CommandOutput (INVARIANTS %s; PROPERTIES %s; FairSpec |= Drains) + tlc -simulate Sim_CommandOutput + "
+                             "h_runtime cmdoutput + tlc Trace_CommandOutput" % (" ".join(M_INVS + P_INVS), " ".join(P_PROPS)))
+
+    # ======== supply lanes: Uplinks (supply branch) + SupplyBackpressure
+    ps = plan_supply(tier)
+    rs = Run(SUP, "SupplyUplink", SUP_M_INVS, SUP_P_INVS, P_PROPS, out, wd, rng, interesting_sup, lambda k: {"ns": k["NS"]})
+    for i, k in enumerate(ps["b3"]):
+        rs.b3(i, k)
+    for i, k in enumerate(ps["live"]):
+        rs.live(i, k)
+    for i, k in enumerate(ps["dump"]):
+        rs.dump(i, k, ps["walks"], ps["extend"])
+    for i, (k, num) in enumerate(ps["sim"]):
+        rs.sim(i, k, num)
+    sstats = rs.stats()
+    sstats["checker_cmd"] = ("tlc MC_SupplyUplink (INVARIANTS %s; PROPERTIES %s; FairSpec |= Drains) + tlc -simulate Sim_SupplyUplink + "
+                             "h_runtime cmdoutput supply + tlc Trace_SupplyUplink" % (" ".join(SUP_M_INVS + SUP_P_INVS), " ".join(P_PROPS)))
+
+    ints = ("states", "transitions", "traces_validated_against_impl")
+    stats = {x: cstats[x] + sstats[x] for x in ints}
+    stats["command_output"] = {k_: v for k_, v in cstats.items()}
+    stats["supply_uplink"] = {k_: v for k_, v in sstats.items()}
+    out.add(**{x: stats[x] for x in ints})
+    out.add(k_cmdoutput=stats["command_output"], k_supply=stats["supply_uplink"])
     out.assumptions += [
         "CommandOutput: one target endpoint (one CommandOutput); the id map / lane-buffer map are abstracted to a total function over targets",
-        "CommandOutput: the write future owns the writer and its buffer, so a write is atomic with respect to the component's state; "
-        "its progress against a full channel is exercised by the harness (8..64K byte channels) but not modelled",
+        "CommandOutput / Uplinks: the write future owns the writer and its buffer, so a write is atomic with respect to the component's "
+        "state; its progress against a full channel is exercised by the harness (8..64K byte channels) but not modelled",
         "CommandOutput: failure of the channel (write error, connection never established / into_pending) is outside the property and not modelled",
+        "Uplinks (supply): one remote; the driver pushes supply items / synced only for lanes it has pushed Linked for (what Links guarantees); "
+        "items pending for a lane when Unlinked is queued for it may be discarded (the remote is no longer linked)",
     ]
     return stats
 
@@ -317,9 +442,11 @@ def run_k(tier, out, wd, prop="C14"):
 
 def replay_k(obj, wd, prop="C14", path="?"):
     case = obj["case"]
+    comp = SUP if obj.get("component") == SUP.name else CMD
     os.makedirs(wd, exist_ok=True)
-    res = rp.run_cases(MEMBER, COMPONENT, [case], wd, tag="replay", input_keys=INPUT_KEYS)[0]
-    d = diff_case(case, res)
+    res = rp.run_cases(MEMBER, COMPONENT, [case], wd, tag="replay", input_keys=comp.input_keys, args=comp.args)[0]
+    d = diff_case(comp, case, res)
+    print("component:", comp.name)
     print("first divergence from M at step:", d)
     if d is not None and res.get("panic") is None:
         exp = case["acts"][d] if d < len(case["acts"]) else END_EXPECTED
@@ -328,7 +455,7 @@ def replay_k(obj, wd, prop="C14", path="?"):
         print("  observed:", json.dumps(got))
     if res.get("panic") is not None:
         print("  PANIC:", res["panic"])
-    rejected, _ = p_validate_all([case], [res], wd, "replay")
+    rejected, _ = p_validate_all(comp, [case], [res], wd, "replay")
     why = rejected.get(str(case["id"]))
     print("P verdict:", "REJECTED - " + why if why else "accepted")
     if why:
